@@ -179,25 +179,25 @@ impl shuttle::scheduler::Scheduler for TapeScheduler {
             // while another one can run
             if let Some(p) = cur_pos {
                 let others: Vec<usize> = (0..runnable.len()).filter(|i| *i != p).collect();
-                let i = others[ctx.choose("sched_yield_to", others.len() as u64) as usize];
+                let i = others[ctx.net_choose("sched_yield_to", others.len() as u64) as usize];
                 ctx.shape_op(9, i);
                 return Some(runnable[i].id());
             }
         }
         if let Some(p) = cur_pos {
-            if !ctx.chance("sched_switch", 1, self.stickiness) {
+            if !ctx.net_chance("sched_switch", 1, self.stickiness) {
                 ctx.shape_op(7, p);
                 return Some(runnable[p].id());
             }
         }
-        let i = ctx.choose("sched_pick", runnable.len() as u64) as usize;
+        let i = ctx.net_choose("sched_pick", runnable.len() as u64) as usize;
         ctx.shape_op(8, i);
         ctx.fault("context_switch");
         Some(runnable[i].id())
     }
     fn next_u64(&mut self) -> u64 {
         match self.ctx.try_borrow_mut() {
-            Ok(mut c) => c.choose("shuttle_u64", u64::MAX),
+            Ok(mut c) => c.net_choose("shuttle_u64", u64::MAX),
             Err(_) => 0,
         }
     }
